@@ -46,7 +46,12 @@ fn ambient() -> String {
     let f = std::fs::read_to_string("/nonexistent").unwrap_or_default();
     let rc = std::rc::Rc::new(1u8);
     let addr = std::rc::Rc::as_ptr(&rc) as usize;
-    format!("{:?}{:?}{}{}{}{}{:p}", t, i, e, p, f, addr, &rc)
+    // a randomly keyed hasher: the hash VALUE differs between processes
+    let h = {
+        use std::hash::BuildHasher;
+        std::hash::RandomState::new().hash_one(&e)
+    };
+    format!("{:?}{:?}{}{}{}{}{:p}{}", t, i, e, p, f, addr, &rc, h)
 }
 
 // C14.3 forbidden in beff-core: process-lifetime mutable state
@@ -240,4 +245,64 @@ pub fn prefix_with_rest(items: &Vec<Piece>) -> String {
         Some(Piece::Lit(c)) => format!("{}+{}", c, items[1..].len()),
         _ => String::new(),
     }
+}
+
+// ---- C05.9 controls: peeling negatives one at a time ----
+pub struct NegNode {
+    pub lo: u32,
+    pub hi: u32,
+    pub next: Option<std::rc::Rc<NegNode>>,
+}
+pub enum Inhabited {
+    Yes,
+    No,
+}
+pub fn peel_all(lo: u32, hi: u32, neg: &Option<std::rc::Rc<NegNode>>) -> Inhabited {
+    match neg {
+        None => Inhabited::Yes,
+        Some(n) => {
+            if lo < n.lo {
+                if let Inhabited::Yes = peel_all(lo, n.lo.min(hi), &n.next) {
+                    return Inhabited::Yes;
+                }
+            }
+            if n.hi < hi {
+                return peel_all(n.hi.max(lo), hi, &n.next);
+            }
+            Inhabited::No
+        }
+    }
+}
+pub fn peel_first_only(lo: u32, hi: u32, neg: &Option<std::rc::Rc<NegNode>>) -> Inhabited {
+    match neg {
+        None => Inhabited::Yes,
+        Some(n) => {
+            if lo < n.lo {
+                return Inhabited::Yes; // flagged: the rest of the negatives is not asked
+            }
+            if n.hi < hi {
+                return peel_first_only(n.hi.max(lo), hi, &n.next);
+            }
+            Inhabited::No
+        }
+    }
+}
+
+// ---- C08.9 controls: a merge computed from the existing entry, stored with or_insert ----
+pub fn lost_update(acc: &mut std::collections::BTreeMap<String, u32>, key: String, value: u32) {
+    let merged = match acc.get(&key) {
+        Some(existing) => (*existing).min(value),
+        None => value,
+    };
+    acc.entry(key).or_insert(merged); // flagged: ignored exactly when an entry exists
+}
+pub fn kept_update(acc: &mut std::collections::BTreeMap<String, u32>, key: String, value: u32) {
+    let merged = match acc.get(&key) {
+        Some(existing) => (*existing).min(value),
+        None => value,
+    };
+    acc.insert(key, merged);
+}
+pub fn first_wins(acc: &mut std::collections::BTreeMap<String, u32>, key: String, value: u32) {
+    acc.entry(key).or_insert(value);
 }
